@@ -3,8 +3,9 @@
 import json, os, shutil, subprocess, sys
 pid, slug, det, initial = sys.argv[1:5]
 R = sys.argv[5] if len(sys.argv) > 5 else ""
+PROP = sys.argv[6] if len(sys.argv) > 6 else pid
 src = "/tmp/seed%s_%s/OUT" % (R, pid)
-dst = "/verif/seeded/%s-%s%s" % (pid, "r%s-" % R if R else "", slug)
+dst = "/verif/seeded/%s-%s%s" % (PROP, "r%s-" % R if R else "", slug)
 os.makedirs(dst, exist_ok=True)
 for n in os.listdir(src):
     shutil.copy(os.path.join(src, n), os.path.join(dst, n))
@@ -12,7 +13,7 @@ log = open("/tmp/confirm%s_%s.log" % (R, pid)).read() if os.path.exists("/tmp/co
 res = [l for l in log.splitlines() if l.startswith("---") or l.startswith("test result") or "panicked" in l or "patch.diff matches" in l]
 notes = open(os.path.join(src, "notes.md")).read()
 meta = {
-    "property": pid,
+    "property": PROP,
     "origin": "independent sub-agent given only the property text and a scratch worktree of /repo",
     "patch": "patch.diff",
     "demonstration": [n for n in os.listdir(src) if n.endswith(".rs")],
